@@ -3,6 +3,7 @@ package props
 import (
 	"fmt"
 	"go/ast"
+	"go/token"
 	"go/types"
 	"sort"
 	"strings"
@@ -805,13 +806,18 @@ func c18Accessor(p *core.Program, r *core.Report, e *engines, roles, hc map[stri
 				return true
 			}
 			sites++
+			// what holds at the construction site (enclosing tests, else branches, earlier guard
+			// clauses) includes: depth > 0 — in any spelling
 			under := false
-			for _, anc := range stack {
-				if is, ok := anc.(*ast.IfStmt); ok {
-					c := eng.ExprStr(is.Cond)
-					if strings.Contains(c, "depth > 0") || strings.Contains(c, "depth != 0") || strings.Contains(c, "depth >= 1") {
-						// inside the then-branch?
-						if cl.Pos() >= is.Body.Pos() && cl.End() <= is.Body.End() {
+			isDepth := func(x ast.Expr) bool {
+				sel, ok := x.(*ast.SelectorExpr)
+				return ok && sel.Sel.Name == "depth"
+			}
+			for _, f := range eng.FactsAt(fd.Body, cl) {
+				if _, other, op, ok := eng.CmpOn(f, isDepth); ok {
+					if tv, ok := pinfo.Types[other]; ok && tv.Value != nil {
+						c := tv.Value.ExactString()
+						if (c == "0" && (op == token.GTR || op == token.NEQ)) || (c == "1" && op == token.GEQ) {
 							under = true
 						}
 					}
